@@ -31,12 +31,15 @@ def run_seed(sid, checks, tier="quick"):
     with open(os.path.join(sd, "meta.json")) as f:
         meta = json.load(f)
     tmp = tempfile.mkdtemp(prefix="utap-seed-")
-    res = {"seed": sid, "property": meta["property"], "runs": {}}
+    res = {"seed": sid, "property": meta["property"], "runs": {}, "expect": meta.get("expect", "violation")}
     try:
         for d in ("src", "include"):
             shutil.copytree(os.path.join(REPO, d), os.path.join(tmp, d))
         p = subprocess.run(["git", "apply", "--whitespace=nowarn", os.path.join(sd, "patch.diff")], cwd=tmp,
                            stdout=subprocess.PIPE, stderr=subprocess.STDOUT, text=True)
+        if p.returncode != 0:       # older patches (reverse of early fix commits): retry with less context
+            p = subprocess.run(["git", "apply", "-C1", "--whitespace=nowarn", os.path.join(sd, "patch.diff")],
+                               cwd=tmp, stdout=subprocess.PIPE, stderr=subprocess.STDOUT, text=True)
         if p.returncode != 0:
             res["skipped"] = "patch no longer applies: " + p.stdout.strip()[:300]
             return res
@@ -104,6 +107,12 @@ def main(argv):
             st = "SKIPPED (%s)" % r["skipped"]
         elif own is None:
             st = "property not claimed"
+        elif r.get("expect") == "silent":
+            if own["exit"] == 0:
+                st = "SILENT as expected (the property holds with this change)"
+            else:
+                st = "FALSE ALARM (exit %d %s %s)" % (own["exit"], own["violations"][:3], own["broken"])
+                bad += 1
         elif own["exit"] == 1:
             st = "DETECTED by %s: %s" % (r["property"], ", ".join(own["violations"][:3]))
         else:
